@@ -355,9 +355,11 @@ Fixpoint ldb_run_from (st : lstate) (ops : list op) : list obs :=
   end.
 Definition ldb_run (ops : list op) : list obs := ldb_run_from ldb_init ops.
 
-(* ---- the memory backend of the pinned tree (before the repair), kept for the record:
-   IteratorPrefixWithStart ignored the prefix, Set stored nil as nil, Value() of an
-   unpositioned iterator was Get("").  Proofs.v shows the witnesses on which it differs. *)
+(* ---- the iterators of the memory backend of the pinned tree (before the repair), kept for
+   the record: IteratorPrefixWithStart ignored the prefix and Value() of an unpositioned
+   iterator was Get("").  Proofs.v shows the witnesses on which they differ from the repaired
+   code.  (The third repaired difference — Set stored a nil value as nil, so that Get reported
+   the key as absent — needs no model: [mem_set] stores [nonnil v].) *)
 Definition legacy_sorted_keys (m : mdb) (s : val) : list bytes :=
   sort_strings (filter (fun k => negb (blt k (nonnil s))) (map fst m)).
 Definition legacy_iter_start (m : mdb) (s : val) : miter :=
